@@ -120,9 +120,9 @@ func denseSelfOpTemplates(K int) []*tmpl {
 		}})
 
 	// Solve (differential oracle).
-	add(&tmpl{method: "Dense.Solve", pos: "a=recv,b", xs: xsSquare, shapes: squareOnly,
+	add(&tmpl{method: "Dense.Solve", pos: "a=recv,b", xs: xsSquare, shapes: squareOnly, noSamePointer: true,
 		call: func(recv, x mat.Matrix, fv int) error { return recv.(*mat.Dense).Solve(recv, x) }})
-	add(&tmpl{method: "Dense.Solve", pos: "a,b=recv", xs: xsSquare,
+	add(&tmpl{method: "Dense.Solve", pos: "a,b=recv", xs: xsSquare, noSamePointer: true,
 		shapes: func(r, c int) [][2]int { return [][2]int{{r, r}} },
 		call:   func(recv, x mat.Matrix, fv int) error { return recv.(*mat.Dense).Solve(x, recv) }})
 
